@@ -55,11 +55,26 @@ func Parse(input string) ParseResult {
 
 	stream := antlr.NewCommonTokenStream(lexer, antlr.TokenDefaultChannel)
 
+	numberTokenType := parser.NumscriptLexerNUMBER
 	parser := parser.NewNumscriptParser(stream)
 	parser.RemoveErrorListeners()
 	parser.AddErrorListener(listener)
 
 	parsed := parseProgram(parser.Program())
+
+	// number literals are stored as machine integers:
+	// report the ones that do not fit (instead of crashing on them)
+	for _, tk := range stream.GetAllTokens() {
+		if tk.GetTokenType() != numberTokenType {
+			continue
+		}
+		if _, err := strconv.Atoi(tk.GetText()); err != nil {
+			listener.Errors = append(listener.Errors, ParserError{
+				Range: tokenToRange(tk),
+				Msg:   "number literal out of range: " + tk.GetText(),
+			})
+		}
+	}
 
 	return ParseResult{
 		Source: input,
@@ -588,7 +603,8 @@ func parseNumberLiteral(numNode antlr.TerminalNode) *NumberLiteral {
 
 	amt, err := strconv.Atoi(amtStr)
 	if err != nil {
-		panic("Invalid number: " + amtStr)
+		// out of range literal: reported as a parsing error by Parse()
+		amt = 0
 	}
 
 	return &NumberLiteral{
